@@ -227,7 +227,7 @@ fn load_comments<R: Read + std::io::Seek>(
             let text = comment
                 .descendants()
                 .filter(|n| n.has_tag_name("t"))
-                .map(|n| n.text().unwrap().to_string())
+                .map(|n| n.text().unwrap_or("").to_string())
                 .collect::<Vec<String>>()
                 .join("");
             let cell_ref = get_attribute(&comment, "ref")?.to_string();
